@@ -1,0 +1,286 @@
+//go:build verif
+
+// Contracts for the staking state (C05, C15, C08): ghost ledger over the
+// consensus state tree (T-KV / T-Ledger of DESIGN.md §3). Comment-only.
+//
+// Ghost state mirrors what is stored under the staking key formats:
+//   GGen/GActB/GActS/GDebB/GDebS [addr]  stored account fields
+//   GAcctSum = sum over all stored accounts of general + active + debonding balance
+//   GCommon, GGovDep, GLastFees, GSupply  the four stored scalars
+//   GDel[escrow][delegator], GDelSum[escrow]; GDeb[delegator][escrow][epoch], GDebSum[escrow]
+//   GWrites  number of successful tree mutations
+package state
+
+//@ import staking "github.com/oasisprotocol/oasis-core/go/staking/api"
+//@ import "github.com/oasisprotocol/oasis-core/go/common/quantity"
+//@ import "github.com/oasisprotocol/oasis-core/go/consensus/api/transaction"
+//@ import abciAPI "github.com/oasisprotocol/oasis-core/go/consensus/cometbft/api"
+
+//@ ghost var GGen map[staking.Address]int
+//@ ghost var GActB map[staking.Address]int
+//@ ghost var GActS map[staking.Address]int
+//@ ghost var GDebB map[staking.Address]int
+//@ ghost var GDebS map[staking.Address]int
+//@ ghost var GAcctSum int
+//@ ghost var GCommon int
+//@ ghost var GGovDep int
+//@ ghost var GLastFees int
+//@ ghost var GSupply int
+//@ ghost var GDel map[staking.Address]map[staking.Address]int
+//@ ghost var GDelSum map[staking.Address]int
+//@ ghost var GDeb map[staking.Address]map[staking.Address]map[uint64]int
+//@ ghost var GDebSum map[staking.Address]int
+//@ ghost var GWrites int
+//@ ghost var GNonce map[staking.Address]uint64
+
+//@ ghost func QV(q *quantity.Quantity) int { return quantity.Val(q) }
+//@ ghost func AGen(a *staking.Account) int { return quantity.Val(&a.General.Balance) }
+//@ ghost func AActB(a *staking.Account) int { return quantity.Val(&a.Escrow.Active.Balance) }
+//@ ghost func AActS(a *staking.Account) int { return quantity.Val(&a.Escrow.Active.TotalShares) }
+//@ ghost func ADebB(a *staking.Account) int { return quantity.Val(&a.Escrow.Debonding.Balance) }
+//@ ghost func ADebS(a *staking.Account) int { return quantity.Val(&a.Escrow.Debonding.TotalShares) }
+//@ ghost func ASum(a *staking.Account) int { return AGen(a) + AActB(a) + ADebB(a) }
+//@ ghost func StoredSum(addr staking.Address) int { return GGen[addr] + GActB[addr] + GDebB[addr] }
+//@ ghost func Ledger() int { return GAcctSum + GCommon + GGovDep + GLastFees }
+//@ ghost func AValid(a *staking.Account) bool { return AGen(a) >= 0 && AActB(a) >= 0 && AActS(a) >= 0 && ADebB(a) >= 0 && ADebS(a) >= 0 }
+
+// ---- accessors: trusted against T-KV (CBOR round trip assumed) ----
+
+//@ func ImmutableState.Account
+//@   trusted
+//@   modifies nothing
+//@   ensures err != nil ==> result0 == nil
+//@   ensures err == nil ==> fresh(result0) && AGen(result0) == GGen[address] && AActB(result0) == GActB[address] && AActS(result0) == GActS[address] && ADebB(result0) == GDebB[address] && ADebS(result0) == GDebS[address]
+//@   ensures err == nil ==> AValid(result0)
+//@   ensures err == nil ==> result0.General.Nonce == GNonce[address]
+//@   ensures err == nil ==> GAcctSum >= StoredSum(address)
+//@   ensures err != nil ==> unavail(err) || ufb("addrInvalid", address)
+//@   note GAcctSum >= StoredSum: a sum of non-negative stored balances dominates each summand
+
+//@ func MutableState.SetAccount
+//@   trusted
+//@   ensures err != nil ==> unavail(err)
+//@   requires account != nil
+//@   modifies GGen, GActB, GActS, GDebB, GDebS, GAcctSum, GWrites, GNonce
+//@   ensures err == nil ==> mapEq(GNonce, upd(old(GNonce), addr, account.General.Nonce))
+//@   ensures err == nil ==> mapEq(GGen, upd(old(GGen), addr, AGen(account))) && mapEq(GActB, upd(old(GActB), addr, AActB(account))) && mapEq(GActS, upd(old(GActS), addr, AActS(account)))
+//@   ensures err == nil ==> mapEq(GDebB, upd(old(GDebB), addr, ADebB(account))) && mapEq(GDebS, upd(old(GDebS), addr, ADebS(account)))
+//@   ensures err == nil ==> GAcctSum == old(GAcctSum) - old(StoredSum(addr)) + ASum(account)
+//@   ensures err == nil ==> GWrites > old(GWrites)
+
+//@ func ImmutableState.CommonPool
+//@   trusted
+//@   ensures err != nil ==> unavail(err)
+//@   modifies nothing
+//@   ensures err != nil ==> result0 == nil
+//@   ensures err == nil ==> fresh(result0) && QV(result0) == GCommon && GCommon >= 0
+
+//@ func MutableState.SetCommonPool
+//@   trusted
+//@   ensures err != nil ==> unavail(err)
+//@   requires q != nil
+//@   modifies GCommon, GWrites
+//@   ensures err == nil ==> GCommon == QV(q) && GWrites > old(GWrites)
+
+//@ func ImmutableState.TotalSupply
+//@   trusted
+//@   ensures err != nil ==> unavail(err)
+//@   modifies nothing
+//@   ensures err != nil ==> result0 == nil
+//@   ensures err == nil ==> fresh(result0) && QV(result0) == GSupply && GSupply >= 0
+
+//@ func MutableState.SetTotalSupply
+//@   trusted
+//@   ensures err != nil ==> unavail(err)
+//@   requires q != nil
+//@   modifies GSupply, GWrites
+//@   ensures err == nil ==> GSupply == QV(q) && GWrites > old(GWrites)
+
+//@ func ImmutableState.LastBlockFees
+//@   trusted
+//@   ensures err != nil ==> unavail(err)
+//@   modifies nothing
+//@   ensures err != nil ==> result0 == nil
+//@   ensures err == nil ==> fresh(result0) && QV(result0) == GLastFees && GLastFees >= 0
+
+//@ func MutableState.SetLastBlockFees
+//@   trusted
+//@   ensures err != nil ==> unavail(err)
+//@   requires q != nil
+//@   modifies GLastFees, GWrites
+//@   ensures err == nil ==> GLastFees == QV(q) && GWrites > old(GWrites)
+
+//@ func ImmutableState.GovernanceDeposits
+//@   trusted
+//@   ensures err != nil ==> unavail(err)
+//@   modifies nothing
+//@   ensures err != nil ==> result0 == nil
+//@   ensures err == nil ==> fresh(result0) && QV(result0) == GGovDep && GGovDep >= 0
+
+//@ func MutableState.SetGovernanceDeposits
+//@   trusted
+//@   ensures err != nil ==> unavail(err)
+//@   requires q != nil
+//@   modifies GGovDep, GWrites
+//@   ensures err == nil ==> GGovDep == QV(q) && GWrites > old(GWrites)
+
+//@ func ImmutableState.Delegation
+//@   trusted
+//@   ensures err != nil ==> unavail(err)
+//@   modifies nothing
+//@   ensures err != nil ==> result0 == nil
+//@   ensures err == nil ==> fresh(result0) && QV(&result0.Shares) == GDel[escrowAddr][delegatorAddr] && QV(&result0.Shares) >= 0
+
+//@ func MutableState.SetDelegation
+//@   trusted
+//@   ensures err != nil ==> unavail(err)
+//@   requires d != nil
+//@   modifies GDel, GDelSum, GWrites
+//@   ensures err == nil ==> mapEq(GDel, upd(old(GDel), escrowAddr, upd(old(GDel)[escrowAddr], delegatorAddr, QV(&d.Shares))))
+//@   ensures err == nil ==> mapEq(GDelSum, upd(old(GDelSum), escrowAddr, old(GDelSum)[escrowAddr] - old(GDel)[escrowAddr][delegatorAddr] + QV(&d.Shares)))
+//@   ensures err == nil ==> GWrites > old(GWrites)
+
+//@ func ImmutableState.ConsensusParameters
+//@   trusted
+//@   ensures err != nil ==> unavail(err)
+//@   modifies nothing
+//@   ensures err != nil ==> result0 == nil
+//@   ensures err == nil ==> fresh(result0)
+//@   ensures err == nil ==> QV(&result0.MinTransactBalance) >= 0 && QV(&result0.CommissionScheduleRules.MinCommissionRate) >= 0 && QV(&result0.MinDelegationAmount) >= 0
+
+// ---- verified functions ----
+
+//@ func slashPool
+//@   props C05 C15
+//@   requires dst != nil && p != nil && amount != nil && total != nil
+//@   requires QV(dst) >= 0 && QV(&p.Balance) >= 0 && QV(amount) >= 0 && QV(total) >= 0
+//@   requires dst != &p.Balance && dst != &p.TotalShares && amount != dst && total != dst && amount != &p.Balance && total != &p.Balance
+//@   modifies dst, p
+//@   ensures err == nil
+//@   ensures QV(&p.TotalShares) == old(QV(&p.TotalShares))
+//@   ensures old(QV(total)) == 0 ==> QV(dst) == old(QV(dst)) && QV(&p.Balance) == old(QV(&p.Balance))
+//@   ensures old(QV(total)) > 0 ==> QV(dst) - old(QV(dst)) == min(old(QV(&p.Balance)), div(old(QV(&p.Balance)) * old(QV(amount)), old(QV(total))))
+//@   ensures QV(&p.Balance) + QV(dst) == old(QV(&p.Balance)) + old(QV(dst))
+
+//@ func MutableState.Transfer
+//@   props C05
+//@   requires s != nil && ctx != nil && amount != nil && QV(amount) >= 0
+//@   ensures err == nil ==> Ledger() == old(Ledger()) && GSupply == old(GSupply)
+//@   ensures err == nil ==> GCommon == old(GCommon) && GGovDep == old(GGovDep) && GLastFees == old(GLastFees)
+//@   ensures err == nil ==> mapEq(GActS, old(GActS)) && mapEq(GDebS, old(GDebS)) && mapEq(GDelSum, old(GDelSum)) && mapEq(GDebSum, old(GDebSum))
+
+//@ func MutableState.TransferToGovernanceDeposits
+//@   props C05
+//@   requires s != nil && ctx != nil && amount != nil
+//@   ensures err == nil ==> Ledger() == old(Ledger()) && GSupply == old(GSupply)
+//@   ensures err == nil ==> mapEq(GActS, old(GActS)) && mapEq(GDebS, old(GDebS)) && mapEq(GDelSum, old(GDelSum)) && mapEq(GDebSum, old(GDebSum))
+
+//@ func MutableState.TransferFromGovernanceDeposits
+//@   props C05
+//@   requires s != nil && ctx != nil && amount != nil
+//@   ensures err == nil ==> Ledger() == old(Ledger()) && GSupply == old(GSupply)
+//@   ensures err == nil ==> mapEq(GActS, old(GActS)) && mapEq(GDebS, old(GDebS)) && mapEq(GDelSum, old(GDelSum)) && mapEq(GDebSum, old(GDebSum))
+
+//@ func MutableState.DiscardGovernanceDeposit
+//@   props C05
+//@   requires s != nil && ctx != nil && amount != nil
+//@   ensures err == nil ==> Ledger() == old(Ledger()) && GSupply == old(GSupply)
+//@   ensures err == nil ==> mapEq(GActS, old(GActS)) && mapEq(GDebS, old(GDebS)) && mapEq(GDelSum, old(GDelSum)) && mapEq(GDebSum, old(GDebSum))
+
+//@ ghost func ShareGap(a staking.Address) int { return GActS[a] - GDelSum[a] }
+//@ ghost func DebGap(a staking.Address) int { return GDebS[a] - GDebSum[a] }
+//@ ghost func SharesConsistentWithOld() bool { return forall a staking.Address :: ShareGap(a) == old(ShareGap(a)) && DebGap(a) == old(DebGap(a)) }
+
+//@ func ImmutableState.RewardSchedule
+//@   trusted
+//@   modifies nothing
+//@   ensures err == nil ==> (forall i int :: 0 <= i && i < len(result0) ==> QV(&result0[i].Scale) >= 0)
+//@   ensures err == nil ==> allocated(result0)
+
+//@ func MutableState.computeCommission
+//@   props C05 C15
+//@   requires s != nil && total != nil && QV(total) >= 0 && (rate == nil || QV(rate) >= 0)
+//@   modifies nothing
+//@   ensures err != nil ==> result0 == nil && result1 == nil
+//@   ensures err == nil ==> fresh(result0) && fresh(result1) && result0 != result1
+//@   ensures err == nil ==> QV(result0) >= 0 && QV(result1) >= 0 && QV(result0) + QV(result1) == QV(total)
+
+//@ func MutableState.SlashEscrow
+//@   props C05 C15
+//@   requires s != nil && ctx != nil && amount != nil && QV(amount) >= 0
+//@   ensures err == nil ==> Ledger() == old(Ledger()) && GSupply == old(GSupply) && GGovDep == old(GGovDep) && GLastFees == old(GLastFees)
+//@   ensures err == nil ==> mapEq(GActS, old(GActS)) && mapEq(GDebS, old(GDebS)) && mapEq(GDelSum, old(GDelSum)) && mapEq(GDebSum, old(GDebSum))
+//@   ensures err == nil ==> fresh(result0) && QV(result0) >= 0 && GCommon == old(GCommon) + QV(result0)
+//@   ensures err == nil ==> QV(result0) == (old(GActB[fromAddr]) - GActB[fromAddr]) + (old(GDebB[fromAddr]) - GDebB[fromAddr])
+//@   ensures err == nil && old(GActB[fromAddr]) + old(GDebB[fromAddr]) > 0 ==> old(GActB[fromAddr]) - GActB[fromAddr] == min(old(GActB[fromAddr]), div(old(GActB[fromAddr]) * QV(amount), old(GActB[fromAddr]) + old(GDebB[fromAddr])))
+//@   ensures err == nil && old(GActB[fromAddr]) + old(GDebB[fromAddr]) > 0 ==> old(GDebB[fromAddr]) - GDebB[fromAddr] == min(old(GDebB[fromAddr]), div(old(GDebB[fromAddr]) * QV(amount), old(GActB[fromAddr]) + old(GDebB[fromAddr])))
+
+//@ func MutableState.TransferFromCommon
+//@   props C05
+//@   requires s != nil && ctx != nil && amount != nil && QV(amount) >= 0
+//@   ensures err == nil ==> Ledger() == old(Ledger()) && GSupply == old(GSupply) && GGovDep == old(GGovDep) && GLastFees == old(GLastFees)
+//@   ensures err == nil ==> SharesConsistentWithOld()
+
+//@ func MutableState.AddRewardSingleAttenuated
+//@   props C05
+//@   requires s != nil && ctx != nil && factor != nil && QV(factor) >= 0
+//@   ensures err == nil ==> Ledger() == old(Ledger()) && GSupply == old(GSupply) && GGovDep == old(GGovDep) && GLastFees == old(GLastFees)
+//@   ensures err == nil ==> SharesConsistentWithOld()
+
+//@ func MutableState.AddRewards
+//@   props C05
+//@   requires s != nil && ctx != nil && factor != nil && QV(factor) >= 0
+//@   ensures err == nil ==> Ledger() == old(Ledger()) && GSupply == old(GSupply) && GGovDep == old(GGovDep) && GLastFees == old(GLastFees)
+//@   ensures err == nil ==> SharesConsistentWithOld()
+//@   loop 2 invariant commonPool != nil && QV(commonPool) >= 0 && allocated(commonPool)
+//@   loop 2 invariant GAcctSum + QV(commonPool) == old(GAcctSum) + old(GCommon)
+//@   loop 2 invariant GCommon == old(GCommon) && GGovDep == old(GGovDep) && GLastFees == old(GLastFees) && GSupply == old(GSupply)
+//@   loop 2 invariant SharesConsistentWithOld()
+
+//@ func ImmutableState.DebondingInterval
+//@   trusted
+//@   modifies nothing
+//@   ensures err != nil ==> unavail(err)
+
+//@ func ImmutableState.DebondingDelegation
+//@   trusted
+//@   modifies nothing
+//@   ensures err != nil ==> result0 == nil && unavail(err)
+//@   ensures err == nil ==> fresh(result0) && QV(&result0.Shares) == GDeb[delegatorAddr][escrowAddr][uint64(epoch)] && QV(&result0.Shares) >= 0
+
+//@ func MutableState.SetDebondingDelegation
+//@   trusted
+//@   modifies GDeb, GDebSum, GWrites
+//@   ensures err != nil && !unavail(err) ==> GWrites == old(GWrites) && mapEq(GDeb, old(GDeb)) && mapEq(GDebSum, old(GDebSum))
+//@   ensures err == nil && d != nil ==> mapEq(GDeb, upd(old(GDeb), delegatorAddr, upd(old(GDeb)[delegatorAddr], escrowAddr, upd(old(GDeb)[delegatorAddr][escrowAddr], uint64(epoch), old(GDeb)[delegatorAddr][escrowAddr][uint64(epoch)] + QV(&d.Shares)))))
+//@   ensures err == nil && d != nil ==> mapEq(GDebSum, upd(old(GDebSum), escrowAddr, old(GDebSum)[escrowAddr] + QV(&d.Shares)))
+//@   ensures err == nil && d == nil ==> mapEq(GDeb, upd(old(GDeb), delegatorAddr, upd(old(GDeb)[delegatorAddr], escrowAddr, upd(old(GDeb)[delegatorAddr][escrowAddr], uint64(epoch), 0))))
+//@   ensures err == nil && d == nil ==> mapEq(GDebSum, upd(old(GDebSum), escrowAddr, old(GDebSum)[escrowAddr] - old(GDeb)[delegatorAddr][escrowAddr][uint64(epoch)]))
+//@   ensures err == nil ==> GWrites > old(GWrites)
+
+//@ func MutableState.RemoveFromDebondingQueue
+//@   trusted
+//@   modifies GWrites
+//@   ensures err != nil ==> unavail(err)
+//@   ensures err == nil ==> GWrites > old(GWrites)
+
+// ---- authentication, fee and nonce (C08, C09) ----
+
+//@ ghost func FeeAmt(fee *transaction.Fee) int { return ite(fee == nil, 0, quantity.Val(&fee.Amount)) }
+//@ ghost func Deliver(ctx *abciAPI.Context) bool { return !abciAPI.IsSim(ctx) && !abciAPI.IsCheck(ctx) }
+
+//@ func AuthenticateAndPayFees
+//@   props C08 C09
+//@   requires ctx != nil
+//@   requires fee == nil || quantity.Val(&fee.Amount) >= 0
+//@   assumes GNonce[staking.AddrOf(signer)] < 18446744073709551615
+//@   ensures err != nil && !unavail(err) ==> GWrites == old(GWrites)
+//@   ensures err == nil && !old(Deliver(ctx)) ==> GWrites == old(GWrites)
+//@   ensures err == nil && !old(abciAPI.IsSim(ctx)) ==> old(GNonce[staking.AddrOf(signer)]) == nonce
+//@   ensures err == nil && !old(abciAPI.IsSim(ctx)) ==> old(GGen[staking.AddrOf(signer)]) >= old(FeeAmt(fee))
+//@   ensures err == nil && old(Deliver(ctx)) ==> mapEq(GNonce, upd(old(GNonce), staking.AddrOf(signer), nonce + 1))
+//@   ensures err == nil && old(Deliver(ctx)) ==> mapEq(GGen, upd(old(GGen), staking.AddrOf(signer), old(GGen[staking.AddrOf(signer)]) - old(FeeAmt(fee))))
+//@   ensures err == nil && old(Deliver(ctx)) ==> GAcctSum == old(GAcctSum) - old(FeeAmt(fee))
+//@   ensures err == nil && old(Deliver(ctx)) ==> mapEq(GActB, old(GActB)) && mapEq(GActS, old(GActS)) && mapEq(GDebB, old(GDebB)) && mapEq(GDebS, old(GDebS))
+//@   ensures err == nil ==> GCommon == old(GCommon) && GGovDep == old(GGovDep) && GLastFees == old(GLastFees) && GSupply == old(GSupply)
+//@   ensures err == nil ==> mapEq(GDel, old(GDel)) && mapEq(GDelSum, old(GDelSum)) && mapEq(GDeb, old(GDeb)) && mapEq(GDebSum, old(GDebSum))
